@@ -92,6 +92,19 @@ def obligations():
             nterm = q0[1][2][0]      # number of samples: n from X.shape, or len(X)
             root_guarded = "shape" in fx.show(nterm) or "len(" in fx.show(nterm)
         ob("the root is queued only if it may be split (n_samples >= min_samples_split)", root_guarded, {"initial queue": fx.show(q0)[:200]})
+        # limits set-up: the feature subset is drawn among the FEATURES (columns), max_features clamped to their number
+        chs = [e for e in calls if e[2].endswith(".choice")]
+        okc = len(chs) == 1
+        if okc:
+            ncols = ("item", ("attr", Xv0, "shape"), fx.C(1)) if False else None
+            a0 = chs[0][3][0] if chs[0][3] else None
+            size = dict(chs[0][4]).get("size")
+            okc = (isinstance(a0, tuple) and a0[0] == "item" and a0[1][:1] == ("attr",) and a0[1][2] == "shape" and a0[2] == fx.C(1)
+                   and dict(chs[0][4]).get("replace") == fx.C(False)
+                   and isinstance(size, tuple) and size[0] == "ite" and size[1] == ("cmp", ("IsNot",), (_attr(SELF, "max_features"), fx.C(None)))
+                   and size[3] == a0 and size[2][:1] == ("callres",) and size[2][2] == "min" and size[2][3][0] == a0)
+        ob("feature subset: choice(n_features, size=min(n_features, max(max_features, 1)) or n_features, replace=False)", okc,
+           {"call": fx.show(("callres", chs[0][1], chs[0][2], chs[0][3], chs[0][4]))[:300] if chs else None})
         fb = [e for e in calls if e[2] == "find_best_split"]
         ob("one split search per iteration", len(fb) == 1 and fb[0][5] == (L1,))
         if len(fb) != 1:
